@@ -112,7 +112,9 @@ def main():
     for u in units:
         try:
             res = run_unit(mod, u)
-        except Exception:
+        except (KeyboardInterrupt, SystemExit):
+            raise
+        except BaseException:
             res = dict(id=u['id'], verdict='harness_error', detail=traceback.format_exc()[-1500:])
         sys.stdout.write('RESULT ' + json.dumps(res) + '\n')
         sys.stdout.flush()
